@@ -40,6 +40,7 @@ def plan(tier, seed):
     shards.append(("alias",))
     shards += [("uniqlist", g) for g in GROUPS]
     shards += [("threads", g) for g in GROUPS]
+    shards += [("threads_uniq", g) for g in ("cubic", "hexagonal", "tetragonal", "monoclinic_b")]
     shards += [("idxpoint", k_) for k_ in range(4)]
     names = list(GROUPS)
     for a in names:
@@ -429,6 +430,51 @@ def _run_threads(desc):
     return sh
 
 
+def _run_threads_uniq(desc):
+    """two python threads reduce two DIFFERENT orientations with the same named group at the same time (the group object is cached per
+    process, so both threads hold the same object): every schedule with one preemption at a statement of the sym_u module is executed;
+    each thread must get the canonical setting of ITS orientation, as it does when it runs alone"""
+    _, name = desc
+    from ImageD11 import sym_u
+    from vt import pysched
+    sh = Shard()
+    grp = getattr(sym_u, name)()
+    modfile = sym_u.__file__
+    ub = _ubis(name, seed_of())
+    ua, ubb = ub[0][1], ub[len(ub) // 2][1]
+    ops = [np.asarray(o, float) for o in grp.group]
+    starts = [np.dot(ops[-1], ua), np.dot(ops[len(ops) // 2], ubb)]
+    alone = [np.array(sym_u.find_uniq_u(x.copy(), grp)) for x in starts]
+    hk = np.array([[1, -2, 3], [0, 2, -1], [-3, 1, 1]], float).T
+    alone_h = [np.array(sym_u.find_uniq_hkls(hk.copy(), grp)), np.array(sym_u.find_uniq_hkls(-hk[:, ::-1].copy(), grp))]
+
+    def make():
+        return [lambda: (np.array(sym_u.find_uniq_u(starts[0].copy(), grp)), np.array(sym_u.find_uniq_hkls(hk.copy(), grp))),
+                lambda: (np.array(sym_u.find_uniq_u(starts[1].copy(), grp)), np.array(sym_u.find_uniq_hkls(-hk[:, ::-1].copy(), grp)))]
+    nexec = 0
+    for sw, res, err in pysched.explore(make, lambda fr: fr.f_code.co_filename == modfile, bound=1, max_exec=5000):
+        nexec += 1
+        case = {"kind": "threads_uniq", "group": name, "switch_at_points": list(sw)}
+        for t in range(2):
+            if err[t] is not None:
+                sh.violation("%s:concurrent-reduction-raises" % name, dict(case, thread=t), {"error": repr(err[t])[:200]})
+                break
+            if not (np.array_equal(res[t][0], alone[t]) and np.array_equal(res[t][1], alone_h[t])):
+                sh.violation("%s:concurrent-reduction-gives-another-setting-than-alone" % name, dict(case, thread=t),
+                             {"got": res[t][0], "alone": alone[t]})
+                break
+        sh.states += 1
+        sh.traces_validated += 1
+        if sh.violations:
+            break
+    sh.evaluations += 1
+    sh.nontrivial += 1
+    sh.count("thread_schedules_executed", nexec)
+    sh.outcomes.add((name, "threads_uniq"))
+    sh.sample({"kind": "threads_uniq", "group": name, "schedules": nexec}, limit=1)
+    return sh
+
+
 def _run_idxpoint(desc):
     """point_by_point.idxpoint (indexing at one sample point, the worker of the point-by-point scan): whatever the number of
     orientations found at the point (one or two here), every matrix it returns is the canonical setting of its symmetry orbit, i.e.
@@ -480,6 +526,8 @@ def _run_idxpoint(desc):
 def run_shard(desc):
     if desc[0] == "idxpoint":
         return _run_idxpoint(desc)
+    if desc[0] == "threads_uniq":
+        return _run_threads_uniq(desc)
     if desc[0] == "threads":
         return _run_threads(desc)
     if desc[0] == "uniqlist":
